@@ -1,4 +1,5 @@
 import PyCraft.Props.C07
+import PyCraft.Props.C07Named
 #print axioms PyCraft.C07.checkColumns_ok
 #print axioms PyCraft.C07.checkCore_ok
 #print axioms PyCraft.C07.core_rows_match
@@ -8,3 +9,15 @@ import PyCraft.Props.C07
 #print axioms PyCraft.C07.core_read_match
 #print axioms PyCraft.C07.normT_conservative
 #print axioms PyCraft.C07.reference_nonempty
+#print axioms PyCraft.C07Named.checkNamed_ok
+#print axioms PyCraft.C07Named.checkTotal_ok
+#print axioms PyCraft.C07Named.checkRows_ok
+#print axioms PyCraft.C07Named.checkGenNamed_ok
+#print axioms PyCraft.C07Named.erase_ok
+#print axioms PyCraft.C07Named.core_named_match
+#print axioms PyCraft.C07Named.reference_total
+#print axioms PyCraft.C07Named.core_named_packets
+#print axioms PyCraft.C07Named.core_layouts_match_named
+#print axioms PyCraft.C07Named.reference_exact
+#print axioms PyCraft.C07Named.releases_tied
+#print axioms PyCraft.C07Named.core_wire_match
